@@ -103,3 +103,154 @@ Theorem cache_rewrite_without_refresh_refuted :
   let s2 := fst (fst (cw_step s1 XTick)) in
   alookup 1 (cdata (cwc s2)) = None /\ 1 <? 3500 / 1000 = true.
 Proof. vm_compute. split; reflexivity. Qed.
+
+(* ------------------------------------------------------------------ *)
+(* The four independently seeded changes (seeded/C16-1..4), each as a variant of the
+   model, each refuted on the multi-phase history that exposes it. *)
+
+(* C16-1: updateOffset advances lastTime by span * interval instead of re-aligning it to
+   the clock.  span is clipped to size, so after an idle gap longer than the window
+   lastTime stays behind: the next Add sees span >= 1 again and wipes what was just added. *)
+Definition rw_update_bystep (w : rw) (now : Z) : rw :=
+  let span := rw_span w now in
+  match span with
+  | O => w
+  | _ =>
+    mkRW (rsize w) (rinterval w) ((roffset w + span) mod rsize w)
+         (rlast w + Z.of_nat span * rinterval w) (rignore w)
+         (rw_reset (rsize w) (roffset w) span (rbuckets w))
+  end.
+
+Definition rw_add_bystep (w : rw) (now v : Z) : rw :=
+  let w' := rw_update_bystep w now in
+  let i := (roffset w' mod rsize w')%nat in
+  mkRW (rsize w') (rinterval w') (roffset w') (rlast w') (rignore w')
+       (set_nth i (nth i (rbuckets w') [] ++ [v]) (rbuckets w')).
+
+Definition rw_run_bystep (w : rw) (h : list (Z * Z)) : rw :=
+  fold_left (fun w p => rw_add_bystep w (fst p) (snd p)) h w.
+
+(* size 3, interval 10: one add, ten idle intervals, three adds in one interval *)
+Theorem window_lasttime_by_step_refuted : exists size iv t0 ig h now,
+  (1 <= size)%nat /\ 0 < iv /\ rw_mono t0 h /\ rw_last_time t0 h <= now /\
+  rw_reduce (rw_run_bystep (rw_new size iv t0 ig) h) now <> rw_reduce_spec size iv t0 ig h now /\
+  rw_reduce (rw_run (rw_new size iv t0 ig) h) now = rw_reduce_spec size iv t0 ig h now.
+Proof.
+  exists 3%nat, 10, 0, false, [(1, 1); (100, 7); (101, 8); (102, 9)], 102.
+  vm_compute. repeat split; try discriminate; try reflexivity; repeat constructor.
+Qed.
+
+(* C16-2: SetWithExpire touches the recency list only for a new key: an overwritten key
+   keeps its old place and is evicted although it was just written. *)
+Definition c_set_newonly (c : cache) (k v : Z) : cache * list Z :=
+  if amem k (cdata c) then (mkC (climit c) (aset k v (cdata c)) (clru c), [])
+  else c_set c k v.
+
+(* limit 2: Set 1, Set 2, Set 1 again, Set 3: the reference evicts key 2, the variant key 1,
+   and the value just written for key 1 is gone *)
+Theorem cache_overwrite_without_touch_refuted :
+  let c2 := fst (c_set_newonly (fst (c_set_newonly (c_new 2) 1 10)) 2 20) in
+  let c3 := fst (c_set_newonly c2 1 11) in
+  snd (c_set_newonly c3 3 30) = [1] /\
+  alookup 1 (cdata (fst (c_set_newonly c3 3 30))) = None /\
+  s_evictions (s_new 2) [CSet 1 10; CSet 2 20; CSet 1 11; CSet 3 30] = [[]; []; []; [2]] /\
+  s_run (s_new 2) [CSet 1 10; CSet 2 20; CSet 1 11; CSet 3 30; CGet 1] =
+    [OUnit; OUnit; OUnit; OUnit; OOpt (Some 11)].
+Proof. vm_compute. repeat split. Qed.
+
+(* C16-3: while draining (deletionOld > maxDeletion) Set removes the key from dirtyNew
+   instead of dirtyOld: an overwritten key of the old generation lives in both maps and
+   Get keeps answering with the stale value. *)
+Definition sm_set_wrongmap (cfg : smcfg) (m : safemap) (k v : Z) : safemap :=
+  if delOld m <=? maxDeletion cfg then sm_set cfg m k v
+  else
+    let m1 := if amem k (dirtyNew m)
+              then mkSM (delOld m + 1) (delNew m) (dirtyOld m) (aremove k (dirtyNew m))
+              else m in
+    mkSM (delOld m1) (delNew m1) (dirtyOld m1) (aset k v (dirtyNew m1)).
+
+Definition sm_step_wrongmap (cfg : smcfg) (m : safemap) (o : smop) : safemap * obs :=
+  match o with
+  | MSet k v => (sm_set_wrongmap cfg m k v, OUnit)
+  | _ => sm_step cfg m o
+  end.
+
+Fixpoint sm_run_wrongmap (cfg : smcfg) (m : safemap) (ops : list smop) : list obs :=
+  match ops with
+  | [] => []
+  | o :: ops' => let (m', r) := sm_step_wrongmap cfg m o in r :: sm_run_wrongmap cfg m' ops'
+  end.
+
+(* thresholds (copyThreshold 2, maxDeletion 2): two live keys, three deletions (no migration:
+   dirtyOld is not below copyThreshold), then the overwrite of a key of dirtyOld *)
+Definition seed3_ops : list smop :=
+  [MSet 1 10; MSet 2 20; MSet 9 0; MDel 9; MSet 9 0; MDel 9; MSet 9 0; MDel 9; MSet 1 11; MGet 1; MSize].
+
+Theorem safemap_set_wrong_generation_refuted :
+  sm_run_wrongmap (mkSMC 2 2) sm_new seed3_ops <> sm_run (mkSMC 2 2) sm_new seed3_ops /\
+  sm_run (mkSMC 2 2) sm_new seed3_ops = map_run [] seed3_ops /\
+  nth 9 (sm_run_wrongmap (mkSMC 2 2) sm_new seed3_ops) OUnit = OOpt (Some 10) /\
+  nth 10 (sm_run_wrongmap (mkSMC 2 2) sm_new seed3_ops) OUnit = ONum 3.
+Proof. vm_compute. repeat split. discriminate. Qed.
+
+(* C16-4: Queue growth copies the wrapped part elements[:head] to offset size - head
+   instead of len(elements) - head.  size is the INITIAL size: right for the first growth
+   only.  (Take also clears the slot it vacates.)  None = the slice bound size - head is
+   negative: Put panics. *)
+Definition overlay_at {A} (off : nat) (src dst : list A) : list A :=
+  firstn off dst ++ firstn (length dst - off) src ++ skipn (off + length src) dst.
+
+Definition q_core_put (q : queue) (x : Z) : queue :=
+  mkQ (set_nth (qtail q) x (qels q)) (qsize q) (qhead q)
+      ((qtail q + 1) mod length (qels q))%nat (S (qcount q)).
+
+Definition q_put_seed4 (q : queue) (x : Z) : option queue :=
+  if Nat.eqb (qcount q) (length (qels q)) then
+    if Nat.ltb (qsize q) (qhead q) then None
+    else
+      let nodes := overlay_at (qsize q - qhead q) (firstn (qhead q) (qels q))
+                     (overlay_at 0 (skipn (qhead q) (qels q)) (repeat 0 (qcount q + qsize q))) in
+      Some (q_core_put (mkQ nodes (qsize q) 0%nat (qcount q) (qcount q)) x)
+  else Some (q_core_put q x).
+
+Definition q_take_seed4 (q : queue) : queue * option Z :=
+  match qcount q with
+  | O => (q, None)
+  | S c => (mkQ (set_nth (qhead q) 0 (qels q)) (qsize q) ((qhead q + 1) mod length (qels q))%nat (qtail q) c,
+            Some (nth (qhead q) (qels q) 0))
+  end.
+
+Fixpoint q_run_seed4 (q : queue) (ops : list qop) : option (list obs) :=
+  match ops with
+  | [] => Some []
+  | QPut x :: ops' =>
+    match q_put_seed4 q x with
+    | Some q' => option_map (cons OUnit) (q_run_seed4 q' ops')
+    | None => None
+    end
+  | QTake :: ops' => let (q', r) := q_take_seed4 q in option_map (cons (OOpt r)) (q_run_seed4 q' ops')
+  | QEmpty :: ops' => option_map (cons (OBool (Nat.eqb (qcount q) 0))) (q_run_seed4 q ops')
+  end.
+
+Definition puts (l : list Z) : list qop := map QPut l.
+
+(* the FIRST growth is right whatever the head (the histories go-zero's own tests reach) ... *)
+Example seed4_first_growth_is_right :
+  q_run_seed4 (q_new 2) (puts [1; 2] ++ [QTake] ++ puts [3; 4; 5] ++ [QTake; QTake; QTake; QTake; QTake]) =
+  Some (fifo_run [] (puts [1; 2] ++ [QTake] ++ puts [3; 4; 5] ++ [QTake; QTake; QTake; QTake; QTake])).
+Proof. vm_compute. reflexivity. Qed.
+
+(* ... the SECOND growth with head <> 0 loses an element and hands out an empty slot ... *)
+Theorem queue_second_growth_wrapped_refuted : exists size ops,
+  (1 <= size)%nat /\
+  q_run_seed4 (q_new size) ops <> Some (fifo_run [] ops) /\
+  q_run (q_new size) ops = fifo_run [] ops.
+Proof.
+  exists 2%nat, (puts [1; 2; 3; 4] ++ [QTake] ++ puts [5; 6] ++ [QTake; QTake; QTake; QTake; QTake]).
+  vm_compute. repeat split; try discriminate; repeat constructor.
+Qed.
+
+(* ... and with head > size Put panics *)
+Theorem queue_second_growth_head_beyond_size_panics :
+  q_run_seed4 (q_new 2) (puts [1; 2; 3; 4] ++ [QTake; QTake; QTake] ++ puts [5; 6; 7; 8]) = None.
+Proof. vm_compute. reflexivity. Qed.
